@@ -249,6 +249,20 @@ def work(tasks, idx):
                         res.violations.append({"why": f"JSON text whose top-level value is not an object ({wl}) was not refused with the "
                                                       f"structure exception: {str(code_w)[:200]}", "value": wrapped[:400],
                                                "match": {"op": "parse_cred_json", "kind": kind, "relation": "non-object-text"}})
+            # JSON text that `json.loads` refuses for another reason than its grammar: an integer literal beyond the interpreter's
+            # digit limit (as a member, or as the whole text), and text with an isolated surrogate escape
+            if isinstance(v, dict) and (n < 0 and it % 7 == 0 or n >= 0 and rng.random() < 0.02):
+                huge = "7" * 4301
+                for bad, bl in ((text.replace("{", '{"x-count": ' + huge + ", ", 1), "huge-literal-member"), (huge, "huge-literal-alone"),
+                                ("[" + huge + "]", "huge-literal-in-list")):
+                    code_b = code_parse(kind, bad)
+                    res.evaluations += 1
+                    tie.check({"op": "parse_cred_json", "kind": kind, "text": bad}, code_b, label=["undecodable-text", bl])
+                    res.count(f"{kind}:undecodable-text:" + corr.kind(code_b))
+                    if code_b["k"] == "accept" or "nonlib" in code_b or code_b.get("lib") not in ALLOWED[kind]:
+                        res.violations.append({"why": f"JSON text that json.loads refuses ({bl}) was not refused with the structure exception: "
+                                                      f"{str(code_b)[:160]}", "value": bad[:80] + "...",
+                                               "match": {"op": "parse_cred_json", "kind": kind, "relation": "undecodable-text"}})
             if len(res.samples) < 4:
                 res.samples.append({"kind": kind, "value": text[:300], "shape": shape, "outcome": corr.kind(code_d)})
     if drv:
